@@ -15,7 +15,7 @@ RELATION_TAGS = ('inter', 'intra', 'other', 'name', 'description', 'container', 
 XML_EDITS = ['none', 'explicit-compress-false', 'explicit-merge-any', 'explicit-similar-empty', 'explicit-prefix-radix-10',
              'zero-pad-confidence', 'zero-pad-version', 'zero-pad-cnp', 'drop-similar', 'drop-merge', 'explicit-date-acquired',
              'empty-attr-extension', 'zero-pad-prefix-radix', 'reorder-attributes', 'plus-version', 'empty-predicate',
-             'empty-relation-description', 'empty-similar-explicit', 'empty-xref', 'empty-regex-soft']
+             'empty-relation-description', 'empty-similar-explicit', 'empty-xref', 'empty-regex-soft', 'story-whitespace']
 
 
 def local(tag):
@@ -164,6 +164,18 @@ def apply_xml_edit(rng, root, how):
     if how in ('empty-xref', 'empty-regex-soft'):
         e = pick(['object-type'])
         return e is not None and (e.set('xref' if how == 'empty-xref' else 'regex-soft', '') or True)
+    if how == 'story-whitespace':
+        # the story is of schema type string: its white space is significant (the other texts are tokens, for which the
+        # SDK's own validation refuses surrounding or repeated white space)
+        e = pick(['event-type'])
+        if e is None:
+            return False
+        attr = how.split('-')[0]
+        cur = e.get(attr) or 'text'
+        pool = [' ', ' ' + cur, cur + ' ', '  ' + cur + '\n  indented', cur + '\n', '\n' + cur, cur + '\n \nmore', '\t' + cur,
+                '    a\n    b'] if attr == 'story' else [cur + '  twice', ' ' + cur, cur + ' ']
+        e.set(attr, rng.choice(pool))
+        return True
     if how == 'reorder-attributes':
         e = pick(['object-type', 'property', 'event-type'])
         if e is None:
